@@ -296,7 +296,7 @@ fn sanitize_animated(reader: &mut DynChunkReader<'_>, vp8x: &Vp8xChunk, config: 
             if let Some(ALPH) = anmf_reader.peek_header()? {
                 let InputSpan { offset, len } = anmf_reader.read_header(ALPH)?;
                 let read_alph @ AlphChunk { flags } = anmf_reader.parse_data()?;
-                read_alph.sanitize_image_data(anmf_reader.data_reader(), vp8x)?;
+                read_alph.sanitize_image_data_with_dimensions(anmf_reader.data_reader(), anmf.width(), anmf.height())?;
                 anmf_reader.skip_data()?;
                 log::info!("{name} @ 0x{offset:08x}: {len} bytes, flags {flags:08b}", name = ALPH);
                 alph = Some(read_alph);
@@ -317,9 +317,9 @@ fn sanitize_animated(reader: &mut DynChunkReader<'_>, vp8x: &Vp8xChunk, config: 
                 let vp8l @ Vp8lChunk { .. } = anmf_reader.parse_data()?;
                 let (width, height) = (vp8l.width(), vp8l.height());
                 ensure_attach!(
-                    (vp8l.width().into(), vp8l.height().into()) == (vp8x.canvas_width(), vp8x.canvas_height()),
+                    (vp8l.width().into(), vp8l.height().into()) == (anmf.width(), anmf.height()),
                     ParseError::InvalidInput,
-                    FrameDimensionsMismatch(vp8l.width(), vp8l.height(), vp8x.canvas_width(), vp8x.canvas_height()),
+                    FrameDimensionsMismatch(vp8l.width(), vp8l.height(), anmf.width(), anmf.height()),
                     WhileParsingType::new::<Vp8lChunk>(),
                 );
                 vp8l.sanitize_image_data(anmf_reader.data_reader())?;
